@@ -33,7 +33,10 @@ ASSUMPTIONS = [
     "the right margin, kitty graphics a=T/C=1/c/r/m, iTerm2 inline images with width/height in cells)",
     "newline is interpreted with ONLCR (column 0): multi-line padded outputs are checked at start "
     "column 0 and several start rows (incl. exact fit), single-line ones at several start columns",
-    "the fill string occupies one column (the documented precondition); ' ' and '#' are used",
+    "the fill string occupies one column (the documented precondition): ' ', '#', SGR-wrapped blank "
+    "ESC[100m SP ESC[0m, SGR-wrapped dim dot ESC[2m . ESC[0m, 'e' + U+0301; Trace_Pad verifies the "
+    "precondition on the fill's own token stream and derives the expected fill cell from it; combining "
+    "characters join the cell printed last, non-colour attributes are part of the compared cell",
     "the padded box must fit the screen (documented precondition of render outputs); screens are "
     "(pw+2)x(ph+2), pw x ph, pw x (ph+1), or the terminal size the padding was resolved against",
     "old API: h_align/v_align None mean centre/middle; width/height <= 0 are relative to the "
@@ -46,7 +49,9 @@ HALIGNS = ["left", "center", "right"]
 VALIGNS = ["top", "middle", "bottom"]
 OLD_H = ["none", "<", "|", ">"]
 OLD_V = ["none", "^", "-", "_"]
-FILLS = [" ", "#", ""]
+# one-column fills: single code points, the empty fill, and multi-code-point ones (an SGR-wrapped
+# blank, an SGR-wrapped glyph carrying a non-colour attribute, base + combining character U+0301)
+FILLS = [" ", "#", "", "\x1b[100m \x1b[0m", "\x1b[2m.\x1b[0m", "e\u0301"]
 TERMS = [(4, 3), (6, 5), (9, 6), (20, 10)]
 
 _KEEP_GFX = ("proto", "a", "C", "c", "r", "z", "m", "q", "d", "x0", "keys", "nkeys", "inline",
@@ -233,7 +238,7 @@ def model_and_replay(rep: Report, only_edge=None, res=None):
                               "negative-exact", "bad-alignment-name")}
     n = 0
     for i, (act, op, P, a, tab) in enumerate(edges):
-        fill = FILLS[i % 3]
+        fill = FILLS[i % len(FILLS)]
         for entry in tab:
             n += 1
             bad = replay_entry(act, op, P, a, entry, fill)
@@ -377,28 +382,52 @@ def inner_of(case):
     return (lambda frame, size: out), (rw, rh), image
 
 
-def lex_norm(text: str, what: str, case) -> dict:
+def lex_norm(text: str, what: str, case, composed: bool = False) -> dict:
+    """Lex; `composed`: the text is the library's composition of texts that lexed cleanly on their
+    own (inner render, fill) - a sequence the lexer does not know can then only have been made by
+    the composition (e.g. a cut-open escape sequence swallowing the next character): it is passed
+    on as a `garbled` token for Trace_Pad to judge, not treated as a machinery problem."""
+    import unicodedata
+
     stream = lexer.lex(text)
-    unk = lexer.unknowns(stream)
+    toks = []
+    for t in stream.toks:
+        if t["k"] == "unknown" and t["g"].startswith("wide/combining U+"):
+            cp = int(t["g"].split("U+")[1], 16)
+            if unicodedata.combining(chr(cp)):
+                # the shared lexer has no token for combining characters; Trace_Pad interprets
+                # this one itself (ApplyX): it joins the cell printed last
+                t = lexer.tok("comb", m=cp)
+        if t["k"] == "unknown" and composed:
+            t = lexer.tok("garbled", g=t["g"][:32])
+        toks.append(t)
+    unk = [t["g"] for t in toks if t["k"] == "unknown"]
     if unk:
         raise tlc.MachineryError(f"lexer does not know {unk[:3]} in {what} of {case}")
     gfx = []
     for g in stream.gfx:
         gg = dict(lexer.GFX_NONE)
         gfx.append({k: (g[k] if k in g else gg[k]) for k in _KEEP_GFX})
-    return {"toks": stream.toks, "gfx": gfx}
+    return {"toks": toks, "gfx": gfx}
 
 
 def trace_of(case, inner_out, rsize, padded_out, advertised, frame=None) -> dict:
     api, _site = SITES[case["via"]]
     fill = case.get("fill", " ")
     a = lex_norm(inner_out, "inner render", case)
-    b = lex_norm(padded_out, "padded output", case)
+    b = lex_norm(padded_out, "padded output", case, composed=True)
+    f = lex_norm(fill, "fill string", case)
+    # same reasoning for well-formed but foreign sequences (e.g. ESC + a letter of the render): a
+    # token kind that occurs neither in the inner render, nor in the fill, nor in what padding may
+    # add itself can only come from a cut-open sequence
+    own = {t["k"] for t in a["toks"]} | {t["k"] for t in f["toks"]} | {
+        "print", "lf", "sgr", "cuf", "comb", "abort", "partial", "garbled"}
+    b["toks"] = [t if t["k"] in own else lexer.tok("garbled", g=t["k"]) for t in b["toks"]]
     return {
         "api": api.split("-")[0],
         "pad": uniform_pad(case["pad"]),
-        "fill": {" ": "sp", "": "none"}.get(fill, "ch"),
-        "fch": ord(fill) if fill else 0,
+        "fill": "cell" if fill else "none",
+        "ftoks": f["toks"],
         "tw": case["term"][0], "th": case["term"][1],
         "rw": rsize[0], "rh": rsize[1],
         "apw": advertised[0] if advertised else -1,
@@ -572,11 +601,11 @@ def gen_cases(rng: random.Random, tier: str):
     deltas = [(dw, dh) for dw in (-1, 0, 1, 2, 3) for dh in (-1, 0, 1, 2, 3)]
     k = 0
     for (rw, rh), fill in itertools.product(sizes, FILLS):
-        inner = dict(kind="text", rw=rw, rh=rh, variant=k % 3)
+        inner = dict(kind="text", rw=rw, rh=rh, variant=(k + k // len(FILLS)) % 3)
         k += 1
-        pads = list(all_exact) if not quick else rng.sample(all_exact, 7) + [singles[k % len(singles)]]
+        pads = rng.sample(all_exact, 4 if quick else 40) + [singles[k % len(singles)]]
         for ha, va in itertools.product(HALIGNS, VALIGNS):
-            for dw, dh in (deltas if not quick else rng.sample(deltas, 2)):
+            for dw, dh in rng.sample(deltas, 1 if quick else 12):
                 pads.append(aligned(max(rw + dw, 1), max(rh + dh, 1), ha, va))
         for p in pads:
             yield dict(via="pad", inner=inner, pad=p, fill=fill, term=term)
@@ -745,7 +774,7 @@ def trace_canaries():
 
     variant("header: left/right margins swapped", lambda t: t["pad"].update(l=3, r=1))
     variant("header: top/bottom margins swapped", lambda t: t["pad"].update(t=1, b=2))
-    variant("header: other fill glyph", lambda t: t.update(fch=36))
+    variant("header: other fill glyph", lambda t: t["ftoks"][0].update(m=36))
     variant("header: reported padded size off by one", lambda t: t.update(apw=t["apw"] + 1))
     variant("stream: last token dropped", lambda t: t["toks"].pop())
     variant("stream: one fill run one column short",
@@ -755,6 +784,24 @@ def trace_canaries():
             lambda t: next(k for k in t["toks"] if k["k"] == "sgr" and len(k["p"]) == 5)["p"].__setitem__(4, 201))
     variant("stream: newline removed",
             lambda t: t["toks"].remove(next(k for k in t["toks"] if k["k"] == "lf")))
+    # a styled fill: accepted when whole fill cells are emitted, rejected when the side padding is a
+    # code-point slice of the padding line (cut-open sequence / too few cells / leaked attributes)
+    sfill = "\x1b[100m \x1b[0m"
+    scase = dict(case, fill=sfill)
+    good = "\n".join([sfill * 7, sfill * 7, sfill + l1 + sfill * 3, sfill + l2 + sfill * 3, sfill * 7])
+    out.append(("original", trace_of(scase, inner, (3, 2), good, (7, 5))))
+    line = sfill * 7
+    cut = "\n".join([line, line, line[:1] + l1 + line[:3], line[:1] + l2 + line[:3], line])
+    out.append(("stream: side padding sliced by code points", trace_of(scase, inner, (3, 2), cut, (7, 5))))
+    leak = "\n".join([line, line, sfill + l1 + sfill * 2 + "\x1b[100m ", sfill + l2 + sfill * 3, line])
+    out.append(("stream: last fill cell of a line not reset", trace_of(scase, inner, (3, 2), leak, (7, 5))))
+    cfill = "e\u0301"
+    ccase = dict(case, fill=cfill)
+    cgood = "\n".join([cfill * 7, cfill * 7, cfill + l1 + cfill * 3, cfill + l2 + cfill * 3, cfill * 7])
+    out.append(("original", trace_of(ccase, inner, (3, 2), cgood, (7, 5))))
+    cline = cfill * 7
+    ccut = "\n".join([cline, cline, cline[:1] + l1 + cline[:3], cline[:1] + l2 + cline[:3], cline])
+    out.append(("stream: combining fill sliced by code points", trace_of(ccase, inner, (3, 2), ccut, (7, 5))))
     return out
 
 
@@ -792,7 +839,7 @@ def traces_part(rep: Report, cases, canary=False):
                 f"self-check of Trace_Pad failed: trace canary {what!r} got {[v['verdict'] for v in vs]}"
             )
     if canaries:
-        rep.extra["corrupted_traces_rejected"] = len(canaries) - 1
+        rep.extra["corrupted_traces_rejected"] = sum(w != "original" for w, _ in canaries)
     for u, vs in zip(items, verdicts):
         case, t = u["case"], u["trace"]
         rep.traces_validated += len(vs)
@@ -805,8 +852,8 @@ def traces_part(rep: Report, cases, canary=False):
                 rep.distinct.add((id(u), p["cols"], p["rows"], p["r0"], p["c0"]))
             if v["verdict"] == "ok":
                 continue
-            if v["verdict"].startswith("unsupported"):
-                raise tlc.MachineryError(f"Terminal.tla: {v['verdict']} for {case}")
+            if v["verdict"].startswith(("unsupported", "fill-precondition")):
+                raise tlc.MachineryError(f"Terminal.tla / Trace_Pad: {v['verdict']} for {case}")
             clause = v["verdict"].split(":")[0]
             p = v["pos"]
             rep.violation(
